@@ -22,6 +22,8 @@ pub mod c18;
 pub mod c19;
 pub mod c20;
 pub mod realfs;
+pub mod realjob;
+pub mod realsrc;
 
 pub fn run(id: &str, e: &Engine) -> bool {
 	match id {
